@@ -468,8 +468,7 @@ class Renderer:
             if s[0] == "wild" and r is not None and r.random() < 0.6:
                 self.used.add("shorthand")
                 return (".." if kind == "desc" else ".") + "*"
-        if strict:
-            assert len(sels) == 1
+        if strict and len(sels) == 1 and sels[0][0] in ("name", "index"):
             return prefix + "[" + self.selector(sels[0]) + "]"
         return (prefix + "[" + self.S("bracket-open")
                 + (self.S("before-comma") + "," + self.S("after-comma")).join(self.selector(s) for s in sels)
